@@ -3534,6 +3534,13 @@ subset_case(long idx)
 	if (rv != 0) vf_harness_fail("subset recv: %s", nng_strerror(rv));
 	uint32_t jid = nng_pipe_id(nng_msg_get_pipe(m));
 	nng_msg_free(m);
+	// A message can arrive before the pipe's ADD_POST has been delivered (the
+	// event follows the protocol's start), and a pipe closed before that point
+	// legitimately never gets it.  Once the library is quiescent the start of
+	// this pipe is over: it has reached the ADD_POST stage.
+	if (!vf_quiesce(1, 3000)) vf_stat("subset_not_quiescent_before_judging", 1);
+	vf_msleep(2);
+	(void) vf_quiesce(1, 3000);
 	if (dynamic) {
 		// take the others away again (REM_POST-side last so that the set never
 		// lacks an earlier event that a NEW pipe could miss - there is none here)
